@@ -214,6 +214,80 @@ func TestC05(t *testing.T) {
 		}
 	}
 	wg.Wait()
+	// ---- the primary owner is the unreachable one (its RESP listener is closed, it stays in the member list): whatever a
+	// read sent to another member answers, it is not a value unless ReadQuorum copies can still be reached
+	for _, q := range [][2]int{{2, 2}, {3, 3}, {3, 2}, {2, 1}} {
+		R, RQ := q[0], q[1]
+		if rng.Intn(100) >= fraction && !(R == 2 && RQ == 2) {
+			continue
+		}
+		c, err := cluster.Start(cluster.Options{Replicas: R, WriteQuorum: 1, ReadQuorum: RQ, Partitions: 7, Manual: true}, 3)
+		if err != nil {
+			t.Fatal(err)
+		}
+		cfg := fmt.Sprintf("R=%d W=1 RQ=%d, the primary owner unreachable", R, RQ)
+		A := c.Members[0]
+		pa := Embedded(A)
+		var keys []string
+		for j := 0; len(keys) < 6 && j < 2000; j++ {
+			k := fmt.Sprintf("x%d", j)
+			if o, _ := c.OwnerOf(A, "c05", k); o == A {
+				keys = append(keys, k)
+			}
+		}
+		for _, k := range keys {
+			if rep := pa.Put(ctx, "c05", k, "old-"+k, PutOpts{}); rep.Ret != "ok" {
+				t.Fatalf("setup put: %+v", rep)
+			}
+		}
+		pa.Close()
+		if err := A.V.Server.VerifCloseListener(); err != nil {
+			t.Fatal(err)
+		}
+		closed := map[string]bool{A.Name: true}
+		for _, m := range c.Members[1:] {
+			deadline := time.Now().Add(8 * time.Second)
+			streak := 0
+			for time.Now().Before(deadline) && streak < 12 {
+				if err := m.V.Client.Get(A.Name).Ping(ctx).Err(); err != nil {
+					streak++
+				} else {
+					streak = 0
+					time.Sleep(20 * time.Millisecond)
+				}
+			}
+		}
+		seq++
+		w.Emit(trace.Ev{"t": "reset", "seq": seq, "cfg": cfg})
+		for _, m := range c.Members[1:] {
+			for _, p := range []Path{Embedded(m), Resp(m)} {
+				for _, k := range keys[:3] {
+					// copies that can still be reached: those on the backup owners (the primary's is behind the closed listener)
+					reach := 0
+					for _, b := range c.BackupsOf(m, "c05", k) {
+						if closed[b.Name] {
+							continue
+						}
+						if _, ok := b.V.DMap.VerifEntry("c05", k, partitions.BACKUP); ok {
+							reach++
+						}
+					}
+					rep := p.Get(ctx, "c05", k)
+					sum.Evaluations++
+					sum.Paths[p.Name()]++
+					w.Emit(trace.Ev{"t": "getx", "R": R, "RQ": RQ, "obtained": reach, "ret": rep.Ret, "newest": rep.Ret != "val" || rep.V == "old-"+k,
+						"path": p.Name(), "k": k, "detail": rep.Err})
+					if reach == RQ || reach == RQ-1 {
+						sum.DistinctNontrivial++
+					}
+				}
+				p.Close()
+			}
+		}
+		sum.Histories++
+		sum.Configs = append(sum.Configs, cfg)
+		c.ShutdownAsync()
+	}
 	// ---- member-count quorum
 	for _, mcq := range []int{2, 3} {
 		c, err := cluster.StartTogether(cluster.Options{Replicas: 1, MemberCountQuorum: mcq, Partitions: 7, Manual: true}, 3)
